@@ -59,3 +59,21 @@ prop("C17",
                 "listed in pyvc/relib.py). Step contracts give the whole-stream statement by induction (not mechanised). "
                 "Known finding: a whitespace run spanning two text tokens is not merged.",
      explanation="per-token step contract + idempotence lemma")
+
+
+prop("C14",
+     level="proof",
+     level_text="Proof of consumeNumberEntity for every digit run (any length, decimal and hex): the result is the standard's "
+                "replacement of the number (C1 table, NUL, surrogates, out of range -> U+FFFD, else the code point) and exactly "
+                "the digits and an optional ';' are consumed; proof of consumeEntity against an abstract trie: the scan is "
+                "maximal, the longest name inside it is decoded, the attribute-value exception applies exactly when the "
+                "semicolon-less name is followed by an alphanumeric or '=', nothing is lost or invented, and the text goes to "
+                "the attribute value or a character token. Ground (exhaustive): the 2231-name table and the numeric table "
+                "against CPython's independent copies, the real Trie's answers on all 610 948 prefix queries, and the encode "
+                "handler on all 0x110000 code points (reverse clause).",
+     level_note="Trusted: pyvc, z3/cvc5; the stream interface contract (proved of the real class under C05); library facts about "
+                "int() and str.lstrip listed in pyvc/engine.py; html.entities.html5 and html._invalid_charrefs as the standard's "
+                "tables. The step from 'longest name inside the maximal scan' to 'longest name that is a prefix of the input' is "
+                "a five-line argument over the trie definitions (DESIGN.md), not mechanised. Known finding: the reverse clause "
+                "fails for NUL, CR and C1 controls/surrogates (inherent to HTML).",
+     explanation="numeric and named reference functions under contract; tables and reverse map exhaustively ground-checked")
